@@ -29,9 +29,12 @@
        `compile_correct_block_loops`), and the `set` statement (`compile_correct_set`: hinted compiles).  Several compile-ONLY
        theorems carry what the branch / code not executed needs (`tf_shapeM`, `tf_shapeT`, `tf_shapeH`, `tf_maxM`, `tf_maxT`,
        `tf_nobrk`, `tf_NR_b`).
-       NOT proved: `set` / loops as constructors of the fragment (assignments inside operands and loop bodies, nested loops),
-       `break`, closure creation and calls of closures, upvalues, far registers (see `compile_correct_partial` for the exact list
-       and the reasons). -/
+       Session 4d: `while` loops without `break` nested to any depth as loop-body statements (`compile_correct_nested_while`,
+       `compile_correct_loops_any_depth`); the entry moves of functions with > 240 parameters (`fn_moveargs_correct`,
+       `fn_moveargs_allocated`: first far-register theorems).
+       NOT proved: `set` / loops as constructors of the fragment (assignments inside operands and loop bodies, loops inside operands
+       or `if` branches), `break`, closure creation and calls of closures, upvalues, far registers beyond the entry moves (see
+       `compile_correct_partial` for the exact list and the reasons). -/
 import JanetModel.Emit.Proofs
 import JanetModel.Bytecode.Exec
 import JanetModel.Lang.SemProps
@@ -63,6 +66,7 @@ import JanetModel.Compile.SeqSet
 import JanetModel.Compile.SeqBoxInj
 import JanetModel.Compile.SeqSetSideH
 import JanetModel.Compile.MoveArgs
+import JanetModel.Compile.SeqNestN
 namespace JanetModel.Props.C02
 open JanetModel.Emit
 
@@ -661,7 +665,7 @@ theorem compile_correct_call_error (p : Program) (f0 : Frame) (rest : List Frame
     names visible outside the loop (their registers are untouched, the boxes only grow).  Conclusion `Correct2 … opts.drop …`
     (value nil, environment unchanged, invariants re-established, registers allocated at entry untouched).
     `Compile/SeqWhileDef.lean`, `SeqWhileBody.lean`, `SeqWhile.lean` (`while_jump_core`), `SeqWhileAll.lean` (`while_core`),
-    `SeqNoBrk.lean`, `SeqNoBrkSem.lean`.  Nested loops and `break` are not covered (the loop is not a constructor of the fragment). -/
+    `SeqNoBrk.lean`, `SeqNoBrkSem.lean`.  `break` is not covered; nested loops: `compile_correct_nested_while`, `compile_correct_loops_any_depth`. -/
 theorem compile_correct_while (p : Program) (f0 : Frame) (rest : List Frame) (V : Array Value) (P : List JanetModel.Emit.KConst)
     (hP : P.length < 65536)
     (hK : ∀ i, i < P.length → (p.defs.getD f0.defIdx default).consts.getD i .nil = litOf V (P.getD i .nil))
@@ -913,7 +917,8 @@ theorem compile_correct_fn_params (p : Program) (f0 : Frame) (rest : List Frame)
     without `break` over it (`TFW`: `compile_correct_while`'s loops), in any order, value used or dropped.  No new induction: the
     lemmas of the statement induction are generic in the fragment predicate, and `CorrectAt` for `TFW` holds by cases
     (`tfw_correct`: `compile_correct_if` / `compile_correct_while`); compile-only map-length fact for loops: `while_ML`.
-    (`Compile/SeqBlockLoops.lean`.)  Loops nested in loops or inside `if` branches are still not covered. -/
+    (`Compile/SeqBlockLoops.lean`.)  Loops nested in loops: `compile_correct_nested_while`, `compile_correct_loops_any_depth`; loops inside
+    `if` branches are still not covered. -/
 theorem compile_correct_block_loops (p : Program) (f0 : Frame) (rest : List Frame) (V : Array Value) (P : List JanetModel.Emit.KConst)
     (hP : P.length < 65536)
     (hK : ∀ i, i < P.length → (p.defs.getD f0.defIdx default).consts.getD i .nil = litOf V (P.getD i .nil))
@@ -926,6 +931,80 @@ theorem compile_correct_block_loops (p : Program) (f0 : Frame) (rest : List Fram
     (hE : EnvS G c.scopes env s.boxes.size sc.ra) :
     Correct2 p f0 rest V P G opts.drop c c' slot sc rs pool ps env env s s' v :=
   do_loops_core p f0 rest V P hP hK FF G fuel body hT opts c c' slot sc rs pool ps n cur env envb s s' v ht hh hs hp hl hm hc hsem hE
+
+/-- **Nested `while` loops (no `break`)**: an outer loop whose condition is in `TF G true` (`CondOK`) and whose body statements are
+    fragment forms OR inner loops without `break` over the fragment (`TFW G true`), in any order.  `while_core` / `while_jump_core`
+    generalised over the body predicate (`while_core_gen`, `while_jump_gen`: Compile/SeqNestJump.lean, SeqNestCore.lean): the VM
+    side needs `CorrectAt` / `MLAt` for the body predicate (`tfw_correct`, `tfw_ML`); the compile-ONLY facts about code that is
+    not executed in the last round / in a loop that runs zero times — append-only shape, `max` monotone, no break placeholder left
+    (the inner loop's placeholder rewrite is the identity and leaves none: `NoBrkFrom.brkRewrite`) — are proved for a loop FORM
+    (`while_form_facts`, SeqNestForm.lean) and lifted to statement lists (`StmtFacts`, `whileBody_facts`, SeqNest.lean); semantic
+    side: a loop never ends with the `.brk` outcome (`whileLoop_nobrk`), so the outer body has none (`tfw_evalSeq_nbg`). -/
+theorem compile_correct_nested_while (p : Program) (f0 : Frame) (rest : List Frame) (V : Array Value) (P : List JanetModel.Emit.KConst)
+    (hP : P.length < 65536)
+    (hK : ∀ i, i < P.length → (p.defs.getD f0.defIdx default).consts.getD i .nil = litOf V (P.getD i .nil))
+    (FF : FloatFacts) (G : String → Prop)
+    (fuel : Nat) (cnd : Expr) (body : List Expr) (pp : Pos) (opts : Fopts) (c c' : CState) (slot : JSlot) (sc : Scope) (rs : List Scope)
+    (pool : List JanetModel.Emit.KConst) (ps : List (List JanetModel.Emit.KConst)) (n : Nat) (cur : Pos) (env env' : Env) (s s' : SS) (v : Value)
+    (ht : opts.tail = false) (hh : opts.hint = none)
+    (hs : c.scopes = sc :: rs) (hp : c.pools = pool :: ps) (hl : c.lim ≤ 240) (hm : c.map.length = c.buf.length)
+    (hok : CondOK cnd) (hTc : TF G true cnd) (hTb : ∀ e, e ∈ body → TFW G true e)
+    (hcomp : cValue (fuel + 1) opts (.form (.sym "while" :: cnd :: body) pp) c = some (slot, c'))
+    (hsem : eval n cur env (.form (.sym "while" :: cnd :: body) pp) s = .ok (v, env') s')
+    (henv : EnvS G c.scopes env s.boxes.size sc.ra) :
+    Correct2 p f0 rest V P G opts.drop c c' slot sc rs pool ps env env' s s' v :=
+  while_nested_core p f0 rest V P hP hK FF G fuel cnd body pp hTc hTb hok opts c c' slot sc rs pool ps n cur env env' s s' v
+    ht hh hs hp hl hm hcomp hsem henv
+
+/-- **Loops nested to ANY depth** (`TFWn G k`, Compile/SeqNestN.lean: a fragment form, or a loop without `break` with a fragment
+    condition whose body statements are in `TFWn G (k−1)`): the loop IS now a constructor — of the statement level of loop bodies —
+    by induction on the nesting depth over `while_core_gen`.  Same conclusion as every form of the fragment (`Correct2`).  Still
+    outside: `break`, loops inside operands / `if` branches / `do` blocks that are themselves loop-body statements, a loop as a
+    loop CONDITION, loops whose body creates a closure (the loop-as-function rewrite). -/
+theorem compile_correct_loops_any_depth (p : Program) (f0 : Frame) (rest : List Frame) (V : Array Value) (P : List JanetModel.Emit.KConst)
+    (hP : P.length < 65536)
+    (hK : ∀ i, i < P.length → (p.defs.getD f0.defIdx default).consts.getD i .nil = litOf V (P.getD i .nil))
+    (FF : FloatFacts) (G : String → Prop) (k fuel : Nat) (e : Expr) (hT : TFWn G k e)
+    (opts : Fopts) (c c' : CState) (slot : JSlot) (sc : Scope) (rs : List Scope)
+    (pool : List JanetModel.Emit.KConst) (ps : List (List JanetModel.Emit.KConst)) (n : Nat) (cur : Pos) (env env' : Env) (s s' : SS) (v : Value)
+    (ht : opts.tail = false) (hh : opts.hint = none)
+    (hs : c.scopes = sc :: rs) (hp : c.pools = pool :: ps) (hl : c.lim ≤ 240) (htop : sc.top = false) (hm : c.map.length = c.buf.length)
+    (hcomp : cValue fuel opts e c = some (slot, c'))
+    (hsem : eval n cur env e s = .ok (v, env') s')
+    (henv : EnvS G c.scopes env s.boxes.size sc.ra) :
+    Correct2 p f0 rest V P G opts.drop c c' slot sc rs pool ps env env' s s' v := by
+  have h := tfwn_correct p f0 rest V P hP hK FF G k fuel e opts c c' slot sc rs pool ps n cur env env' s s' v ht hh hs hp hl htop
+    (fun _ => hm) hT hcomp hsem henv
+  rw [Bool.and_true] at h
+  exact h
+
+/-- non-vacuity: `Lang/Sem` runs a doubly nested loop of the fragment to completion —
+    `(do (def a (array :x :y)) (def b (array 1 2 3)) (while (array/pop a) (while (array/pop b) (emit :in)) (emit :out)))`:
+    2 outer rounds, the inner loop runs 3 times in the first and 0 times in the second: 5 effects; and the loop is in `TFWn G 2` -/
+example : (match eval 40 {} [] (.form [.sym "do", .form [.sym "def", .sym "a", .form [.sym "array", .lit (.kw "x"), .lit (.kw "y")] {}] {},
+            .form [.sym "def", .sym "b", .form [.sym "array", .lit (.kw "p"), .lit (.kw "q"), .lit (.kw "r")] {}] {},
+            .form [.sym "while", .form [.sym "array/pop", .sym "a"] {},
+              .form [.sym "while", .form [.sym "array/pop", .sym "b"] {}, .form [.sym "emit", .lit (.kw "in")] {}] {},
+              .form [.sym "emit", .lit (.kw "out")] {}] {}] {}) {} with
+           | .ok (.nil, _) s => s.st.trace.size == 5 | _ => false) = true := by decide
+example : TFWn (fun f => f = "array/pop" ∨ f = "emit") 2
+    (.form [.sym "while", .form [.sym "array/pop", .sym "a"] {},
+      .form [.sym "while", .form [.sym "array/pop", .sym "b"] {}, .form [.sym "emit", .lit (.kw "in")] {}] {},
+      .form [.sym "emit", .lit (.kw "out")] {}] {}) := by
+  have hpop : ∀ x : String, TF (fun f => f = "array/pop" ∨ f = "emit") true (.form [.sym "array/pop", .sym x] {}) := fun x =>
+    .call "array/pop" _ {} (by decide) (by decide) (Or.inl rfl) (fun a ha => by
+      simp only [List.mem_cons, List.not_mem_nil, or_false] at ha; subst ha; exact .sym x)
+  have hemit : ∀ kw : String, TF (fun f => f = "array/pop" ∨ f = "emit") true (.form [.sym "emit", .lit (.kw kw)] {}) := fun kw =>
+    .call "emit" _ {} (by decide) (by decide) (Or.inr rfl) (fun a ha => by
+      simp only [List.mem_cons, List.not_mem_nil, or_false] at ha; subst ha; exact .lit _ trivial)
+  have hok : ∀ x : String, CondOK (.form [.sym "array/pop", .sym x] {}) := fun x =>
+    Or.inr (Or.inr (Or.inl ⟨"array/pop", _, {}, rfl, by decide⟩))
+  refine Or.inr ⟨_, _, {}, rfl, hok "a", hpop "a", fun x hx => ?_⟩
+  simp only [List.mem_cons, List.not_mem_nil, or_false] at hx
+  rcases hx with rfl | rfl
+  · exact Or.inr ⟨_, _, {}, rfl, hok "b", hpop "b", fun y hy => by
+      simp only [List.mem_cons, List.not_mem_nil, or_false] at hy; subst hy; exact hemit "in"⟩
+  · exact tfwn_of_tf _ 1 _ (hemit "out")
 
 /-- **The error outcome of a function body** (and of a form in tail position): `fnBody` (`janetc_fn`'s body loop: every form but the
     last dropped, the last in TAIL position) over forms of the fragment `TF G b`, and `Lang/Sem.evalSeq` of the body is an
@@ -1087,8 +1166,9 @@ example : ({ tail := true } : Fopts).tail = true ∧ ({ tail := true } : Fopts).
     frame clause "every register allocated at entry keeps its content" and the prefix-stability of the boxes are false and must be
     restated relative to the mutable names a form reaches; the invariant needs injectivity of mutable names' registers and of
     boxes carried by `EnvS` (now side conditions); with `set` inside operands the n-ary call needs the side condition that no
-    operand is a variable a later operand sets (janet reads operand registers when the call is made); loops whose body assigns, destructuring `def`, `break` and nested loops (`.brk` is a third outcome of every form: an induction like the error outcome;
-    a single `while` without `break` over the fragment is `compile_correct_while`), `fn`: closure CREATION and calls of closures (heap relation between `Lang/Sem`'s lambdas and the VM's closure objects), the
+    operand is a variable a later operand sets (janet reads operand registers when the call is made); loops whose body assigns, destructuring `def`, `break` (`.brk` is a third outcome of every form: an induction like the error outcome;
+    a single `while` without `break` over the fragment is `compile_correct_while`; loops nested to any depth as loop-body statements:
+    `compile_correct_nested_while`, `compile_correct_loops_any_depth`; a loop inside an operand / `if` branch / as a condition: not proved), `fn`: closure CREATION and calls of closures (heap relation between `Lang/Sem`'s lambdas and the VM's closure objects), the
     self name, `&`-parameters, upvalues (`janetc_popscope`'s `keep` reservations are modelled and compared word for word, not
     proved) — what a function's funcdef computes is proved (`compile_correct_thunk`, `compile_correct_fn_params`); (3) the
     top-level scope (`sc.top`: calls are never tail calls there, `def` makes globals); (4) far registers (`lim` > 0xF0: the
